@@ -276,6 +276,47 @@ CELLS.append(Cell('P2.query_options', p2_query_options, 'P', FNO + ['fst.fst.FST
                   'each answer equals a fresh tree asked once under the same effective option', budget=600, per_path=60, reset=_reset))
 
 
+# ---------------------------------------------------------------------------------------------------------------- P4
+def p4_option_value_objects(kind: int, side: int, via: int, reps: int):
+    """an option VALUE that is an object (FST operator node, list of strings) is only read: reusing the same object for several calls, through a
+    block or as thread default, gives what fresh equal objects give, and the object itself is unchanged"""
+    assume(0 <= kind <= 1 and 0 <= side <= 1 and 0 <= via <= 2 and 2 <= reps <= 3)
+    kd, sd, vi, rp = pc.pin(kind, 0, 1), ('left', 'right')[pc.pin(side, 0, 1)], pc.pin(via, 0, 2), pc.pin(reps, 2, 3)
+    _reset()
+
+    def mkop():
+        return FST('is not', 'cmpop') if kd == 0 else ['is', 'not']
+
+    def snap(o):
+        return (o.src, type(o.a).__name__) if kd == 0 else list(o)
+    shared = mkop()
+    before = snap(shared)
+    got, exp = [], []
+    for _i in range(rp):
+        f = FST('a < b > c')
+        if vi == 0:
+            f.put_slice('x', 1, 1, op_side=sd, op=shared)
+        elif vi == 1:
+            with FST.options(op=shared):
+                f.put_slice('x', 1, 1, op_side=sd)
+        else:
+            old = FST.set_options(op=shared)
+            try:
+                f.put_slice('x', 1, 1, op_side=sd)
+            finally:
+                FST.set_options(**old)
+        got.append(f.src)
+        g = FST('a < b > c')
+        g.put_slice('x', 1, 1, op_side=sd, op=mkop())
+        exp.append(g.src)
+    with pc.untraced():
+        check(pc.R(got) == pc.R(exp), 'options.result_depends_on_reuse_of_an_option_value_object', (kd, sd, vi, pc.R(got), pc.R(exp)))
+        check(snap(shared) == before, 'options.option_value_object_modified_by_an_edit', (kd, sd, vi, before, snap(shared)))
+        check(_same(FST.get_options(), DEFAULTS), 'options.defaults_changed')
+    _reset()
+    cover('ok')
+
+
 # ---------------------------------------------------------------------------------------------------------------- P3
 # Two real threads, each with its own tree and its own options. The SCHEDULE is the symbolic variable: which thread is preempted,
 # and after how many executed lines of pfst code (counted by a sys.settrace hook in that thread); the other thread then runs its
@@ -436,3 +477,6 @@ for _fb in (False, True):
                   tier='quick', budget=900, per_path=120,
                   stubs=['preemption is placed by a sys.settrace line hook in the preempted thread; granularity = source lines of pfst, not bytecodes'],
                   out='more than one preemption per run; more than two threads; preemption inside a line (between bytecodes) or inside C code; free-threaded builds', reset=_reset))
+CELLS.append(Cell('P4.option_value_objects', p4_option_value_objects, 'P', FNO + ['fst.fst_put_slice._code_to_slice_Compare__all_maybe_dangling'],
+                  'op given as an FST operator node or a list of strings, the SAME object used for 2-3 Compare slice puts per call / through options() / as thread default, op_side left or right (all symbolic): results equal those with fresh equal objects, the object is unchanged',
+                  tier='quick', budget=300, per_path=60, reset=_reset))
